@@ -453,6 +453,46 @@ class ProgGen:
             self.features.add("slot-in-loop")
         return ["slot", name, flags, body, data]
 
+    def nested_bodies(self, nodes, out=None, aliases=()):
+        """Node lists of component bodies (implicit bodies and fill bodies) nested anywhere in ``nodes``; fills that
+        declare an alias of their own are skipped (the name could shadow the outer alias)."""
+        out = [] if out is None else out
+        for n in nodes:
+            if not isinstance(n, list) or not n:
+                continue
+            k = n[0]
+            if k == "comp" and n[3] is not None:
+                if n[3][0] == "implicit":
+                    if n[3][1]:
+                        out.append(n[3][1])
+                        self.nested_bodies(n[3][1], out)
+                else:
+                    self._nested_sites(n[3][1], out)
+            elif k in ("if",):
+                self.nested_bodies(n[2], out)
+                self.nested_bodies(n[3] or [], out)
+            elif k in ("for",):
+                self.nested_bodies(n[-1], out)
+            elif k in ("with", "provide"):
+                self.nested_bodies(n[3], out)
+            elif k == "elem":
+                self.nested_bodies(n[2], out)
+        return out
+
+    def _nested_sites(self, sites, out):
+        for s_ in sites:
+            if s_[0] == "fill":
+                if not s_[3] and not s_[4] and s_[2]:
+                    out.append(s_[2])
+                    self.nested_bodies(s_[2], out)
+            elif s_[0] == "if":
+                self._nested_sites(s_[2], out)
+                self._nested_sites(s_[3] or [], out)
+            elif s_[0] == "for":
+                self._nested_sites(s_[-1], out)
+            elif s_[0] == "with":
+                self._nested_sites(s_[3], out)
+
     def has_slot(self, n):
         if not isinstance(n, list):
             return False
@@ -533,21 +573,29 @@ class ProgGen:
                 data_alias = rng.choice(["d", "e"]) if rng.random() < 0.3 else None
                 default_alias = rng.choice(["f", "g"]) if rng.random() < 0.3 else None
                 if self.flavour == "scope":
-                    # aliases may collide with ordinary variable names: inside the fill the alias must win
-                    # (only the data alias: a colliding *default* alias read by the slot's own default content
-                    # recurses for ever in django mode - same mechanism as the listed finding
-                    # C03-default-alias-content-sees-fill-scope, kept out of the random workload)
+                    # aliases may collide with ordinary variable names: inside the fill the alias must win, while the
+                    # slot's own default content (rendered through the default alias) must not see the aliases
                     if data_alias and rng.random() < 0.5:
                         data_alias = rng.choice(VAR_NAMES)
-                if self.flavour == "scope" and self.in_between:
-                    # {{ default }} under a with/for between tag and fill: listed finding, shown by its witness
-                    default_alias = None
+                    if default_alias and rng.random() < 0.3:
+                        default_alias = rng.choice([v for v in VAR_NAMES if v != data_alias])
+                        self.features.add("default-alias-named-like-variable")
+                if default_alias and self.in_between:
+                    self.features.add("default-alias-under-between-binding")
                 floops = loops + ([site_loop] if site_loop else [])
                 body = self.gen_nodes(budget, depth + 1, in_comp, True, allowed, floops) if rng.random() < 0.9 else []
                 if data_alias:
                     body.append(["dataref", data_alias, "k"])
                 if default_alias:
-                    body.insert(rng.randint(0, len(body)), ["defaultref", default_alias])
+                    # read the alias directly in the fill, or further in: inside the body / a fill of a component that
+                    # is itself written in this fill (the slot's original content passed on to another component)
+                    places = [body]
+                    if rng.random() < 0.4:
+                        places = self.nested_bodies(body) or [body]
+                        if places != [body]:
+                            self.features.add("default-alias-read-in-nested-component-body")
+                    tgt = rng.choice(places)
+                    tgt.insert(rng.randint(0, len(tgt)), ["defaultref", default_alias])
                     self.features.add("default-alias")
                 sites.append(["fill", name, body, data_alias, default_alias])
             elif r < 0.82:
